@@ -221,7 +221,19 @@ fn cmd_pipeline(path: &str, annotate: bool) -> i32 {
     0
 }
 
-fn cmd_caret(op: &str, a: usize, b: usize, c: usize) -> i32 {
+fn cmd_caret(op: &str, v: &[usize]) -> i32 {
+    let (a, b, c) = (v[0], v[1], *v.get(2).unwrap_or(&0));
+    if op == "union" {
+        let r = Position::new(CaretPos::new(v[0], v[1]), CaretPos::new(v[2], v[3]))
+            .union(Position::new(CaretPos::new(v[4], v[5]), CaretPos::new(v[6], v[7])));
+        println!("POSITION|{}|{}|{}|{}", r.start.line, r.start.pos, r.end.line, r.end.pos);
+        return 0;
+    }
+    if op == "get_width" {
+        let r = Position::new(CaretPos::new(v[0], v[1]), CaretPos::new(v[2], v[3])).get_width();
+        println!("WIDTH|{}", r);
+        return 0;
+    }
     let p = CaretPos::new(a, b);
     let r = match op {
         "offset_line" => p.offset_line(c),
@@ -243,7 +255,10 @@ fn main() {
         Some("spans") => cmd_spans(&a[2]),
         Some("relex") => cmd_relex(),
         Some("pipeline") => cmd_pipeline(&a[2], a.get(3).map_or(false, |x| x == "1")),
-        Some("caret") => cmd_caret(&a[2], a[3].parse().unwrap(), a[4].parse().unwrap(), a[5].parse().unwrap()),
+        Some("caret") => {
+            let v: Vec<usize> = a[3..].iter().map(|x| x.parse().unwrap()).collect();
+            cmd_caret(&a[2], &v)
+        }
         _ => {
             eprintln!("usage: vxreplay lex|spans|relex|pipeline|caret ...");
             2
